@@ -280,6 +280,11 @@ def run_impl(spec, cfg, mode, stub=None):
                     x, i = stub(k2['A'], k2['b'], k2['x0'], k2['M'], cb2)
                 else:
                     x, i = o_ssl[name](*a, **k2)
+            except S._ConvergenceError:
+                raise
+            except Exception:
+                state['scipy_raised'] = True      # third-party error (e.g. gcrotmk on a NaN right-hand side)
+                raise
             finally:
                 state['in_scipy'] = False
             events.append(('R', np.array(x, copy=True), int(i)))
@@ -301,7 +306,7 @@ def run_impl(spec, cfg, mode, stub=None):
             R.ret = emg3d.solve(model, sfield, verb=-1, **kw)
     except ValueError as e:
         m = str(e)
-        R.error = ('ErrFreq' if 'missing frequency' in m else 'ErrDtype' if 'same dtype' in m
+        R.error = 'ScipyRaised' if state.get('scipy_raised') else ('ErrFreq' if 'missing frequency' in m else 'ErrDtype' if 'same dtype' in m
                    else 'ErrConfig' if ('At least' in m and 'is required' in m) else 'ValueError:' + m[:60])
     finally:
         S.residual, S.multigrid, S.MGParameters = o_res, o_mg, o_par
@@ -461,7 +466,7 @@ def compare(R, ints, msg):
     """Model answer vs observed run.  Returns a disagreement text or None."""
     code = ints[0]
     if R.error is not None:
-        want = {'ErrConfig': 1, 'ErrFreq': 2, 'ErrDtype': 3}.get(R.error)
+        want = {'ErrConfig': 1, 'ErrFreq': 2, 'ErrDtype': 3, 'ScipyRaised': 4}.get(R.error)
         return None if code == want else f"impl raised {R.error}, model outcome code {code}"
     if code != 0:
         return f"impl returned normally, model outcome code {code} (1-3 errors, 4 stuck)"
